@@ -504,7 +504,10 @@ class Runner:
         fn = getattr(self, "do_" + op["op"])
         r, e = self._outcome(fn, op)
         if e is None and asyncio.iscoroutine(r):
-            raise HarnessError("coroutine returned to a synchronous driver")
+            # no loop is running in this thread: the library must have run the coroutine itself; a
+            # coroutine object handed back to synchronous code is a (wrong) result, not a harness failure
+            r.close()
+            r = "<coroutine object returned to a synchronous caller>"
         self._finish(n, op, r, e)
 
     async def step_async(self, n, op):
